@@ -101,6 +101,10 @@ def space_rows(key, pt: Point):
                 else:
                     pt.ivs[iv] = v
         return out
+    if isinstance(key, tuple) and len(key) == 4 and key[0] == "slice":
+        # positions lo … hi-1 of the parent space (the index variable keeps the parent's numbering)
+        lo, hi = int(round(ev(key[2], pt))), int(round(ev(key[3], pt)))
+        return [k for k in space_rows(key[1], pt) if lo <= k < hi]
     return list(range(pt.size(key)))
 
 
